@@ -52,8 +52,8 @@ func (pry *Priority) SetWeight(w byte) {
 }
 
 func (pry *Priority) Deserialize(fr *FrameHeader) (err error) {
-	if len(fr.payload) < 5 {
-		err = ErrMissingBytes
+	if len(fr.payload) != 5 { // RFC 7540 6.3
+		err = NewResetStreamError(FrameSizeError, "PRIORITY frame must be 5 octets")
 	} else {
 		pry.stream = http2utils.BytesToUint32(fr.payload) & (1<<31 - 1)
 		pry.weight = fr.payload[4]
